@@ -52,6 +52,7 @@ func (C08) Gen(rt *rapid.T, tier string) any {
 		if rapid.IntRange(0, 3).Draw(rt, l+".fails") == 0 {
 			p := genPred(rt, 0, l+".failon")
 			cfg.Extractors[i].FailOn = &p
+			cfg.Extractors[i].FailPanics = rapid.IntRange(0, 2).Draw(rt, l+".panics") == 2
 		}
 	}
 	cfg.UseGitignore = rapid.Bool().Draw(rt, "usegitignore")
